@@ -162,6 +162,23 @@ func genC10(r *sim.Rng, tier string, idx int) *GCase {
 		}
 		c.Files = append(c.Files, f)
 	}
+	if r.Chance(1, 10) {
+		// the operand is a symbolic link, which gxz follows only with -f; the
+		// referent may carry the very name the output is going to get
+		real := c.Files[0]
+		link := FileSpec{Name: real.Name, Kind: "symlink"}
+		forced := v
+		forced.Force, forced.Stdout = true, false
+		e := modelOperand(&forced, stateOf(buildWorld(c)), real.Name)
+		if e.Target != "" && r.Chance(2, 3) {
+			real.Name = e.Target
+		} else {
+			real.Name = sim.Pick(r, []string{"real.dat", "the real file", "r"})
+		}
+		link.Target = real.Name
+		c.Files = []FileSpec{link, real}
+		v.Force = r.Chance(3, 4)
+	}
 	in := c.Files[0].Name
 	v.Files = []string{in}
 	v.DashDash = r.Chance(1, 5) || in[0] == '-'
@@ -286,10 +303,14 @@ func newC10Judge(c *GCase) *c10Judge {
 	v := &c.Runs[len(c.Runs)-1]
 	j := &c10Judge{c: c, v: v, init: stateOf(w0), in: v.Files[0]}
 	j.e = modelOperand(v, j.init, j.in)
+	dataName := j.in // the file that holds the operand's bytes
+	if f := j.init[j.in]; f != nil && f.link != "" {
+		dataName = f.link
+	}
 	for i := range c.Files {
-		if f := &c.Files[i]; f.Name == j.in && f.Kind == "damaged" && j.e.Fail {
+		if f := &c.Files[i]; f.Name == dataName && f.Kind == "damaged" && j.e.Fail {
 			st := j.init.clone()
-			st[j.in].data = f.Stream.Build().Stream
+			st[dataName].data = f.Stream.Build().Stream
 			if a := modelOperand(v, st, j.in); !a.Fail {
 				j.alt = &a
 			}
@@ -349,6 +370,12 @@ func (j *c10Judge) judgeWith(res RunResult, plan simos.Plan, planTag string) *si
 	}
 	inNode := w.Get(j.in)
 	inputIntact := inNode != nil && bytes.Equal(inNode.Data, j.orig) && inNode.Target == j.init[j.in].link
+	if l := j.init[j.in]; l != nil && l.link != "" {
+		// a symbolic link as operand: intact = the link is as it was and its
+		// referent still holds the original bytes
+		ref := w.Get(l.link)
+		inputIntact = inNode != nil && inNode.Target == l.link && ref != nil && bytes.Equal(ref.Data, j.orig)
+	}
 	// the final target name of the operand (model); for failing operands none
 	var tgtNode *simos.Node
 	tgt := j.e.Target
@@ -398,7 +425,17 @@ func (j *c10Judge) judgeWith(res RunResult, plan simos.Plan, planTag string) *si
 		if res.Exit == 0 {
 			return sim.Viol("failure-exit-0", site, "run with %s exited 0", j.why(fired))
 		}
-		if j.init[j.in] != nil && !inputIntact {
+		// With -f the operand may be a symbolic link whose referent carries the
+		// output's name: the rename that puts the complete output in place then
+		// is the replacement of the input, and a failure after it (closing the
+		// input, removing the link) cannot leave the referent as it was. The
+		// clause "leaves the input untouched" presupposes a target different
+		// from the input; here the complete output under that name is what counts.
+		alias := false
+		if l := j.init[j.in]; l != nil && l.link != "" && l.link == tgt && tgtNode != nil && j.completeOutput(tgtNode.Data) {
+			alias = true
+		}
+		if j.init[j.in] != nil && !inputIntact && !alias {
 			// complete output in place and input gone is only acceptable when the
 			// failure hit after the output was complete, e.g. a failing close of
 			// the input; the property says a failing run leaves the input untouched
